@@ -10,7 +10,7 @@ from props import common, generic
 
 
 def run(ctx):
-    proof_ok, can_run = common.prepare(ctx, "C04")
+    proof_ok, can_run = common.prepare(ctx, "C04+C04sem")
     if not can_run:
         common.broken_without_input(ctx, "build", ctx.notes[-1] if ctx.notes else "")
         return
